@@ -385,6 +385,16 @@ def random_polys(ctx, n, required=("rows>=3", "cols>=3", "nonunit_coef", "zero_c
                 a = rng.choice([-1, 1]) * rng.randint(5, 200)
                 r[1 + j] = a
                 r[0] = a * rng.randint(-1, 2) + rng.choice([0, 0, 1, -1])
+        dtype = None
+        if k % 6 == 3:
+            # a narrow dtype: the matrix entries fit, but moving a forced column into b does not (200 * 300 > 32767)
+            dtype = rng.choice(["int16", "int32"])
+            j = rng.randrange(nc)
+            v = rng.randint(150, 300)
+            bounds[j] = (v, v)
+            for r in rows:
+                r[1 + j] = rng.choice([-1, 1]) * rng.randint(120, 200)
+            ctx.region("narrow_dtype")
         if nr >= 3: ctx.region("rows>=3")
         if nc >= 3: ctx.region("cols>=3")
         if any(abs(x) > 1 for r in rows for x in r[1:]): ctx.region("nonunit_coef")
@@ -393,7 +403,7 @@ def random_polys(ctx, n, required=("rows>=3", "cols>=3", "nonunit_coef", "zero_c
         if any(lo == hi for lo, hi in bounds): ctx.region("degenerate_bound")
         if any(r[0] > sum(max(a * lo, a * hi) for a, (lo, hi) in zip(r[1:], bounds)) for r in rows): ctx.region("infeasible_hint")
         out.append({"rows": rows, "bounds": [list(b) for b in bounds], "src": "random", "k": k,
-                    "ids": ["c%d" % j for j in range(nc)], "index": ["r%d" % i for i in range(nr)]})
+                    "ids": ["c%d" % j for j in range(nc)], "index": ["r%d" % i for i in range(nr)], "dtype": dtype})
     missing = [f for f in required if not ctx.regions.get(f)]
     if missing: raise Machinery("random polyhedra did not reach regions %s" % missing)
     return out
@@ -788,7 +798,7 @@ PROPS = {
     "C18": {"run": run_c18, "clauses": {"refused_iff_clash", "is_direct_build", "id_kept", "old_unchanged", "no_exception"}},
     "C13": {"run": run_c13, "clauses": {m + ":" + c for m in drivers.METHODS for c in ("shape", "exact", "prio_dense", "rank_dense", "zeros_signs", "ties", "order", "dominance", "unknown_method")} | {"no_exception"}},
     "C14": {"run": run_c14, "clauses": {"ranks", "opt_same", "dpv_expected", "poly_is_own", "objective_count", "cols_cover_leaves", "no_exception"}},
-    "C15": {"run": run_c15, "clauses": {"cols_cover_leaves", "poly_is_own", "objective_count", "objective_by_id", "ids_aligned", "optimal", "model_true", "raises_infeasible", "no_exception"}},
+    "C15": {"run": run_c15, "clauses": {"ranks", "opt_same", "dpv_expected", "cols_cover_leaves", "poly_is_own", "objective_count", "objective_by_id", "ids_aligned", "optimal", "model_true", "raises_infeasible", "no_exception"}},
     "C11": {"run": run_c11, "clauses": {"shape", "rows_implied", "cols_forced", "projection", "labels", "loop_inv", "reduce_cols_fn", "reduce_rows_fn", "no_exception"}},
     "C12": {"run": run_c12, "clauses": {"shape", "contain", "no_widen", "contra_only_if_empty", "rowb_exact", "colb", "ncomb", "no_exception"}},
     "C19": {"run": run_c19, "clauses": {"sat_value", "sep_value", "rowsep_value", "no_exception"}},
